@@ -520,6 +520,10 @@ def s_any(t, axis=None, keepdims=False, **kw):
 
 
 def _sqrt1(e):
+    if isinstance(e, (float, np.floating)) and not math.isfinite(e):
+        # IEEE: sqrt(+inf) = +inf, sqrt(nan) = nan (SR arithmetic with a float inf operand yields float inf, e.g. the
+        # `ones * inf` convergence seed of CP_PLSR.fit); previously SR.lift raised OverflowError here
+        return float(e) if e > 0 or e != e else float("nan")
     e = SR.lift(e)
     return e.sqrt()
 
